@@ -1,5 +1,5 @@
 import os, sys, hashlib, itertools
-from vf import Check, Stream, hexs, VERIF
+from vf import Check, Stream, hexs, VERIF, BUILD, sh
 
 # Property C13.  One case = one history of one Server client created by Server::pair, driven between
 # run() calls (and, with `react`, from inside its callbacks) under the simulated kernel
@@ -7,7 +7,8 @@ from vf import Check, Stream, hexs, VERIF
 #   write <hex> <outcome>   write0 <hex> <outcome> (no postponed pointer)   ev <mask> <outcome>   poll <outcome>   tick
 #   suspend   resume   read <max>   remove   peerwrite <hex>   peerread   peerclose
 #   react <onRead|onWrite|onClosed> <op...>
-# outcome of the ONE send the operation may issue: wb | s<k> | full | zero | err
+# outcome of the ONE send the operation may issue: wb | s<k> | full | zero | err   (further send calls of the same operation, if the
+# implementation makes any, are answered would-block by the simulated kernel, marked `!unscripted`)
 # mask: letters of i(EPOLLIN) o(EPOLLOUT) h(EPOLLHUP) d(EPOLLRDHUP) e(EPOLLERR), or -
 # A case whose first line is `@two` has TWO clients A and B of the same Server: every client operation may carry the
 # prefix `A.` / `B.` (default A), callbacks are `A.onRead` ..., and
@@ -97,6 +98,7 @@ class C13(Check):
     extracted = ['coq/ServerWrite/model.mli', 'coq/ServerWrite/model.ml', 'ocaml/zconv.ml', 'ocaml/serverwrite_driver.ml']
     harness_sources = ['harness/serverwrite.cpp', 'harness/serverwrite_kernel.cpp']
     per_case_timeout = 20
+    has_spec = False            # the property oracle is the monitor (judge), not a line-by-line reference observation
     level_text = ('Theorems in Coq about a model of one Server client (ClientImpl::write/read/suspend/resume, the client part of the '
                   'dispatch in Server::Private::run, Poll::set/remove and the epoll event mapping incl. EPOLLRDHUP/EPOLLERR) and about a '
                   'model of TWO clients sharing the Server\'s Socket::Poll (epoll variant: the cache of events collected by one '
@@ -111,16 +113,33 @@ class C13(Check):
                   'client gets no onRead - for one client and for two clients, i.e. also when its read readiness was already collected '
                   'in the poll round in which another client\'s callback suspends it (the cache never holds an event kind its client is '
                   'not registered for at that moment); interest set invariant; the one-client model is the two-client model restricted '
-                  'to client A; both models refine the reference objects the implementation is judged against. The models are tied to the '
-                  'code by running the extracted models, the extracted reference objects and the ASan/UBSan build of the working tree on '
-                  'the same histories under a simulated kernel (send/epoll_ctl/epoll_wait interposed): return values, postponed, '
-                  'getSendBufferSize, isSuspended, callbacks (per client, in order), intercepted send calls, bytes handed to the OS, epoll '
-                  'registration masks and the byte streams read at the peer ends of the socket pairs are compared line by line.')
+                  'to client A; both models refine exact reference objects (one predicted observation per operation); every history of '
+                  'either model is accepted by the PROPERTY MONITOR (ServerWriteMonitor.v), the reading of the property text as a set of '
+                  'per-client event traces: (stream) whatever the OS takes is the front of the queue of accepted-and-not-yet-handed-over '
+                  'bytes, (size) every reported postponed / getSendBufferSize equals the length of that queue, (onWrite) only when the '
+                  'queue is empty, once per backlog, and not later than the end of the run() in which the backlog drained, (progress) a '
+                  'backlog whose socket the kernel finds writable is offered to the OS within two run() calls, (suspended) no onRead '
+                  'between suspend() and resume(), (peer) the peer reads exactly what the OS took. The IMPLEMENTATION IS JUDGED BY THAT '
+                  'MONITOR (extracted, run on the ordered event trace observed under a simulated kernel: send/epoll_ctl/epoll_wait '
+                  'interposed, peer end of a real socket pair read back) - not by predicted observations: the number and size of send '
+                  'calls, the order of callbacks of different clients, onClosed, when onRead is delivered, the return value of write (an '
+                  'input: it defines the accepted data) and everything after a send answered with an error/0, a peer close or a remove '
+                  '(outside the text\'s quantifier; only the suspended clause stays judged) are left open, as in the text. Separately, the '
+                  'models are tied to the code call by call: the extracted models and the ASan/UBSan build run the same histories and return '
+                  'values, postponed, getSendBufferSize, isSuspended, callbacks (per client, in order), intercepted send calls, bytes handed '
+                  'to the OS per operation and epoll registration masks are compared line by line (a difference there without a monitor '
+                  'rejection is reported as no-failing-input-found).')
     level_note = ('partial: the kernel\'s in-order delivery of the bytes it accepted (stream socket semantics) is assumed (the model\'s wire '
                   'is a FIFO; the harness does read the peer end of a real socket pair and compares). At most two clients; listeners, '
                   'establishers, timers of the same loop are C14. Write sizes and backlogs are assumed < 2^31 bytes: Socket::send passes '
                   '(int)size to ::send and the model does not narrow (a backlog whose low 32 bits are 0 would be sent as 0 bytes and the '
-                  'connection given up). Choices where the property text is silent and the reference object follows the code: a write '
+                  'connection given up). Oracle choices where the text gives no number: the deadline of onWrite is the end of the run() '
+                  'call in which the backlog drained; the progress bound is two run() calls after the kernel found the socket writable (a '
+                  'collected notification may be handed out by the following run()); an accepted write of 0 bytes while nothing is queued '
+                  'tolerates (does not demand) one onWrite; a send call the history has no scripted answer for is answered would-block by '
+                  'the simulated kernel and not judged. The progress clause is proved for the one-client model (one poll event = one '
+                  'run()); for two clients it is checked on the implementation only. Choices where the property text is silent and the '
+                  'reference OBJECT / model (not the oracle) follow the code: a write '
                   'of 0 bytes on a connection without backlog issues send(fd, p, 0), whose result 0 is treated as "connection closed" '
                   '(write returns false, onClosed follows) - DESIGN 5 lists this as outside the statements, not patched; a hang-up '
                   '(EPOLLHUP/EPOLLRDHUP) counts as read readiness and, when no read is wanted, as write readiness; EPOLLERR alone '
@@ -131,7 +150,8 @@ class C13(Check):
                   '(differential, simulated kernel; the order in which a real kernel reports several ready descriptors is an input); '
                   'Buffer internals are C08. Modelled as input: every send result, every epoll readiness report, peer behaviour, order '
                   'of application calls. Trusted: Coq kernel, extraction + OCaml driver, harness + interposed kernel.')
-    technique = 'Coq proof (invariant + induction over histories + refinement to a reference object) ; differential correspondence under a simulated kernel'
+    technique = ('Coq proof (invariant + induction over histories + refinement to a reference object + acceptance by the property monitor) ; '
+                 'extracted property monitor on the implementation\'s event trace + differential model correspondence under a simulated kernel')
     rule = ('cases = histories of write(size, send outcome; with and without postponed pointer) / poll event(readiness mask over '
             'IN OUT HUP RDHUP ERR, send outcome) / real-epoll poll / tick / suspend / resume / read / peer write, read, close / remove, '
             'also issued from inside callbacks; two-client cases: one epoll round reporting both clients in either order, the callback '
@@ -146,7 +166,8 @@ class C13(Check):
                    'the interposed epoll_wait in the harness); one epoll_wait reports a descriptor at most once',
                    'send returns -1/EAGAIN, -1/error, 0, or 1..n (send_ret); a send of 0 bytes returns 0',
                    'every write size and backlog is < 2^31 bytes ((int)size in Socket::send is not modelled)',
-                   'callbacks do not re-enter Server::run; every one-client operation calls Poll::set/remove at most once']
+                   'callbacks do not re-enter Server::run; every one-client operation calls Poll::set/remove at most once',
+                   'the harness reports every send call on a client descriptor, every callback and every reaction in real-time order (trace section t= of its lines)']
 
     def __init__(self):
         Check.__init__(self)
@@ -165,17 +186,182 @@ class C13(Check):
         gave_up = any('onClosed' in ','.join(self.field(l, 'cb')) for l in obs)
         return backlog or susp_ev or gave_up
 
+    # ---- the property oracle -------------------------------------------------------------------
+    # The implementation's observations are turned into the ordered event trace of each client and judged by
+    # the extracted monitor of coq/ServerWrite/ServerWriteMonitor.v (`driver monitor`): stream / size / onWrite /
+    # suspended / progress / peer - the clauses of the property text, nothing about the number or size of send
+    # calls, the order of callbacks of different clients, onClosed, or when onRead IS delivered.  The exact
+    # call-by-call predictions (cb=, tx=, sends=, k=) are compared with the extracted MODEL only (correspondence).
+    RUN_OPS = ('ev', 'evs', 'poll', 'tick')
+
+    @staticmethod
+    def parse_line(l):
+        secs = l.split(' | ')
+        head = secs[0].split(' ')
+        f = {'name': head[0], 'dead': head[-1] == 'dead'}
+        for t in head[1:]:
+            if '=' in t:
+                k, v = t.split('=', 1)
+                f[k] = v
+        for sec in secs[1:]:
+            for t in sec.split(' '):
+                if '=' in t:
+                    k, v = t.split('=', 1)
+                    f[k] = v
+        f['trace'] = [] if f.get('t', '-') == '-' else f['t'].split(',')
+        return f
+
+    def trace_events(self, obs):
+        """event lines for `driver monitor` from the observation lines of one case"""
+        ev = []
+        pending = []                                   # lines of operations executed from inside callbacks, oldest first
+
+        def sizes(f):
+            for c, v in enumerate(f.get('sb', '-').split('/')):
+                if v != '-':
+                    ev.append('sz %d %s' % (c, v))
+
+        def plain(f):
+            """an operation that delivers no callbacks (everything but run())"""
+            if f['dead']:
+                return
+            name = f['name']
+            idx, opn = (1 if name[0] == 'B' else 0, name[2:]) if name[:2] in ('A.', 'B.') else (0, name)
+            tx = [('' if x == '-' else x) for x in f.get('tx', '-').split('/')]
+            if opn in ('write', 'write0'):
+                data, taken = None, ''
+                for t in f['trace']:
+                    if t[0] == 'W':
+                        data = t.split(':', 1)[1]
+                    elif t[0] == 'S':
+                        c, req, ret, kind = t[1:].split(':')
+                        if kind[0] == 't':
+                            taken += tx[int(c)][:2 * int(ret)]
+                            tx[int(c)] = tx[int(c)][2 * int(ret):]
+                        else:
+                            ev.append('%s %s' % ('b' if kind[0] == 'w' else 'f', c))
+                if data is None:
+                    raise ValueError('write line without W token')
+                ev.append('w %d %s %s %s %s' % (idx, data, f['r'], f['n'] if opn == 'write' else '-', taken or '-'))
+                sizes(f)
+            elif opn in ('suspend', 'resume'):
+                ev.append('su %d %d' % (idx, 1 if opn == 'suspend' else 0))
+                sizes(f)
+            elif opn == 'remove':
+                ev.append('f %d' % idx)
+            elif opn == 'peerread':
+                ev.append('pr %d %s' % (idx, f.get('data', '-')))
+                sizes(f)
+            elif opn == 'peerclose':
+                ev.append('pr %d %s' % (idx, f.get('data', '-')))
+                ev.append('f %d' % idx)
+            else:                                      # read, peerwrite
+                sizes(f)
+
+        for l in obs:
+            if l == 'react' or l.startswith('!'):
+                continue
+            if l.startswith('end '):
+                for c, v in enumerate(l.split('data=', 1)[1].split('/')):
+                    ev.append('pr %d %s' % (c, v))
+                continue
+            f = self.parse_line(l)
+            if f['trace'][:1] == ['~']:
+                pending.append(f)
+                continue
+            name = f['name']
+            opn = name[2:] if name[:2] in ('A.', 'B.') else name
+            if opn not in self.RUN_OPS:
+                plain(f)
+                continue
+            if f['dead']:
+                continue
+            tx = [('' if x == '-' else x) for x in f.get('tx', '-').split('/')]
+            for t in f['trace']:
+                if t[0] == 'S':
+                    c, req, ret, kind = t[1:].split(':')
+                    if kind[0] == 't':
+                        n = 2 * int(ret)
+                        if len(tx[int(c)]) < n:
+                            raise ValueError('send trace and tx= disagree')
+                        ev.append('h %s %s' % (c, tx[int(c)][:n]))
+                        tx[int(c)] = tx[int(c)][n:]
+                    else:
+                        ev.append('%s %s' % ('b' if kind[0] == 'w' else 'f', c))
+                elif t[0] == 'O':
+                    ev.append('wr %s' % t[1:])
+                elif t[0] == 'C':
+                    c, cbn = t[1:].split(':')
+                    ev.append('cb %s %s' % (c, cbn))
+                elif t == '^':
+                    if not pending:
+                        raise ValueError('reaction marker without a line')
+                    plain(pending.pop(0))
+            sizes(f)
+            ev.append('re')
+        if pending:
+            raise ValueError('line of a reaction without its marker')
+        return ev
+
+    CLAUSES = {
+        'stream': 'bytes handed to the operating system are not the next accepted bytes in call order (lost / duplicated / reordered / from a rejected write)',
+        'size': 'reported postponed / send-buffer size differs from accepted bytes not yet handed to the operating system',
+        'onWrite': 'onWrite while bytes are still queued, a second time for one backlog, without a backlog, or missing when the run() in which the backlog drained returns',
+        'suspended': 'onRead delivered to a suspended client',
+        'progress': 'a backlog reported writable was not offered to the operating system within two run() calls',
+        'peer': 'the peer did not read exactly the bytes handed to the operating system',
+    }
+
+    def monitor(self, traces, tag='mon'):
+        d = os.path.join(BUILD, self.id, 'run')
+        os.makedirs(d, exist_ok=True)
+        p = os.path.join(d, tag + '.ops')
+        with open(p, 'w') as f:
+            for i, t in enumerate(traces):
+                f.write('case %d\n' % i)
+                for e in (t or []):
+                    f.write(e + '\n')
+                f.write('end\n')
+        rc, out, err = sh([self.exes['model'], 'monitor', p], timeout=900)
+        if rc != 0:
+            raise RuntimeError('monitor failed: ' + err[-2000:])
+        res = {}
+        for l in out.split('\n'):
+            t = l.split()
+            if len(t) >= 3 and t[1] == 'verdict':
+                res[int(t[0])] = t[2:]
+        return res
+
     def judge(self, cases, impl_obs, spec_obs):
-        """The reference object stops making claims once the application goes on using a connection that
-        was given up (line `??*`): from there on nothing is compared (which reactions fire is unknown to it)."""
-        ss, ii = [], []
-        for s, o in zip(spec_obs, impl_obs):
-            k = next((j for j, l in enumerate(s) if l == '??*'), None)
-            if k is not None:
-                s, o = s[:k], o[:k]
-            ss.append(s)
-            ii.append(o)
-        return Check.judge(self, cases, ii, ss)
+        fails = []
+        traces = []
+        for i, o in enumerate(impl_obs):
+            try:
+                traces.append(self.trace_events(o))
+            except (ValueError, KeyError, IndexError) as e:
+                traces.append(None)
+                if not any(l.startswith('!') for l in o):
+                    fails.append((i, 0, '[harness output not well-formed]'.ljust(82, '.') + ' %s' % e))
+        ver = self.monitor(traces)
+        for i, o in enumerate(impl_obs):
+            bad = [l for l in o if l.startswith('!')]
+            if bad:
+                k = o.index(bad[0])
+                fails.append((i, k, ('[implementation stopped: %s]' % bad[0].split(' | ')[0]).ljust(82, '.') +
+                              ' after `%s`' % (o[k - 1] if k else '<start>')[:300]))
+                continue
+            if traces[i] is None:
+                continue
+            v = ver.get(i)
+            if v is None:
+                fails.append((i, 0, '[monitor gave no verdict]'.ljust(82, '.')))
+            elif v[0] != 'ok':
+                k, clause, c = int(v[1]), v[2], int(v[3])
+                ctx = ' ; '.join(e if len(e) < 90 else e[:80] + '…' for e in traces[i][max(0, k - 5):k + 1])
+                fails.append((i, k, ('[property clause `%s` contradicted]' % clause).ljust(82, '.') +
+                              ' client %s: %s. Rejected event #%d, trace so far: … %s' % ('AB'[c], self.CLAUSES.get(clause, clause), k, ctx)))
+        fails.sort(key=lambda x: sum(len(l) for l in cases[x[0]]))
+        return fails
 
     # ---- generators ----------------------------------------------------------------------------
     def gen_write_matrix(self, thorough):
